@@ -69,6 +69,7 @@ typedef enum CO_SDO_BLK_STATE_T {
     BLK_UPLOAD,                  /*!< block upload active                    */
     BLK_REPEAT,                  /*!< block upload repeat request active     */
     BLK_DNWAIT,                  /*!< block download wait for next block/end */
+    BLK_DNEND,                   /*!< block download wait for end            */
     BLK_UPINIT                   /*!< block upload wait for start            */
 
 } CO_SDO_BLK_STATE;
